@@ -233,3 +233,63 @@ union_target_harness!(union_target_cell_and_wider_cell_assign_int, T_U_MUT_INT_M
 union_target_harness!(union_target_cell_and_wider_cell_assign_float, T_U_MUT_INT_MUT_U, T_FLOAT, BinOperator::Assign);
 // `+=` on a union of two cell types: did not finish in 700 s (no tier enables it)
 union_target_harness!(#[cfg(feature = "verif_experimental")] union_target_cell_and_wider_cell_add_int, T_U_MUT_INT_MUT_U, T_INT, BinOperator::AssignAdd);
+
+// ---- the static rule of compound assignment --------------------------------------------------
+/// `c op= v` stores `*c op v` into c.  Whenever the checker accepts `mut T op= R`, the static type it
+/// computes for `T op R` (the plain operator on the same operand types - what C01 shows the stored
+/// value belongs to) must itself be storable in the cell, i.e. match T.  No expectation is
+/// hard-coded: two parts of the checker are compared with each other, for every pair of the grid
+///   T in {int, [int], string, int|float}  x  R in {int, float, [float]}
+/// (the 8 x 7 grid first tried needs > 11 min of CBMC per operator).
+fn static_rule(assign_op: BinOperator, plain_op: BinOperator) {
+    const TS: [Ty; 4] = [T_INT, T_ARR_INT, T_STR, T_U_INT_FLOAT];
+    const RS: [Ty; 3] = [T_INT, T_FLOAT, T_ARR_FLOAT];
+    crate::verif_model::set_order(0);
+    let mut accepted = 0;
+    let mut i = 0;
+    while i < TS.len() {
+        let mut j = 0;
+        while j < RS.len() {
+            let (t, r) = (real(TS[i]), real(RS[j]));
+            if can_be_used(&Type::Mut(Arc::new(t.clone())), &r, assign_op) {
+                accepted += 1;
+                // the plain operator is admissible on the same operands ...
+                assert!(can_be_used(&t, &r, plain_op));
+                // ... and what it yields may be stored back
+                let result = BinOperation { lhs: local("a", t.clone()), rhs: local("b", r), op: plain_op }.return_type();
+                assert!(result.matches(&t));
+            }
+            j += 1;
+        }
+        i += 1;
+    }
+    // `mut int op= int` is accepted for every operator: the rule is not vacuous
+    assert!(accepted > 0);
+}
+macro_rules! static_rule_harness {
+    ($name:ident, $a:expr, $p:expr) => {
+        #[kani::proof]
+        #[kani::unwind(10)]
+        #[kani::stub(alloc::fmt::format, crate::verif_common::stub_format)]
+        pub fn $name() {
+            {
+                use crate::instruction::verif_gate::*;
+                allow_mask(1 << K_VARIABLE);
+            }
+            static_rule($a, $p);
+            crate::verif_model::set_order(255);
+            kani::cover!(true);
+        }
+    };
+}
+static_rule_harness!(compound_static_rule_add, BinOperator::AssignAdd, BinOperator::Add);
+static_rule_harness!(compound_static_rule_sub, BinOperator::AssignSubtract, BinOperator::Subtract);
+static_rule_harness!(compound_static_rule_mul, BinOperator::AssignMultiply, BinOperator::Multiply);
+static_rule_harness!(compound_static_rule_div, BinOperator::AssignDivide, BinOperator::Divide);
+static_rule_harness!(compound_static_rule_mod, BinOperator::AssignModulo, BinOperator::Modulo);
+static_rule_harness!(compound_static_rule_pow, BinOperator::AssignPow, BinOperator::Pow);
+static_rule_harness!(compound_static_rule_shl, BinOperator::AssignLShift, BinOperator::LShift);
+static_rule_harness!(compound_static_rule_shr, BinOperator::AssignRShift, BinOperator::RShift);
+static_rule_harness!(compound_static_rule_and, BinOperator::AssignBitwiseAnd, BinOperator::BitwiseAnd);
+static_rule_harness!(compound_static_rule_or, BinOperator::AssignBitwiseOr, BinOperator::BitwiseOr);
+static_rule_harness!(compound_static_rule_xor, BinOperator::AssignXor, BinOperator::Xor);
